@@ -309,11 +309,11 @@ def l2_wait_for(ctx, rep):
                 rep.check(not clash, R, k, s.where, "joins the subscriber thread while holding {%s}; that thread never takes them" % ", ".join(sorted(H)), "joins the subscriber thread while holding %s, which that thread takes" % sorted(clash))
                 # the joined thread's receive is released by disconnection: on every (non-poisoned)
                 # path that reaches the join, the sender taken out of its slot is dropped first
-                pe = ctx.paths(s.body)
+                pe = ctx.paths(ctx.helper_root(s.body), inline=True)
                 good = True
                 nj = 0
                 for p in pe.paths:
-                    js = [e for e in p.events if e.kind == "call" and e.bb == s.bb]
+                    js = [e for e in p.events if e.kind == "call" and e.site is not None and e.site.body.path == s.body.path and e.site.bb == s.bb]
                     if not js:
                         continue
                     if any(k_[0] == "discr" and k_[1][0] == "lockres" and v_.lstrip("*") == "Err" for k_, v_ in p.decisions):
